@@ -64,6 +64,9 @@ func (d *DatasourceExecuting) Run(ctx ExecutionContext, produce ProduceFn, metaS
 		for i, columnIndex := range indicesToRead {
 			str := row[columnIndex]
 			if str == "" {
+				if octosql.Null.Is(d.fields[i].Type) != octosql.TypeRelationIs {
+					return fmt.Errorf("couldn't decode message: empty value in non-nullable column '%s' of type %s", d.fields[i].Name, d.fields[i].Type)
+				}
 				values[i] = octosql.NewNull()
 				continue
 			}
@@ -108,6 +111,9 @@ func (d *DatasourceExecuting) Run(ctx ExecutionContext, produce ProduceFn, metaS
 				}
 			}
 
+			if octosql.String.Is(d.fields[i].Type) != octosql.TypeRelationIs {
+				return fmt.Errorf("couldn't decode message: value '%s' doesn't fit column '%s' of type %s", str, d.fields[i].Name, d.fields[i].Type)
+			}
 			values[i] = octosql.NewString(str)
 		}
 
